@@ -176,6 +176,7 @@ Qed.
 Theorem repeat_error {A} (x : list A) rate d c : repeat_to_duration x rate d = Err c ->
   (c = E_ZERODIV /\ (rate = 0 \/ PrimFloat.eqb (seq_duration (zlen x) rate) 0%float = true)) \/
   (c = E_OVERFLOW /\ (finb (d / seq_duration (zlen x) rate)%float = false \/
+                      finb (0 * f_of_Z rate)%float = false \/
                       finb (d * f_of_Z rate)%float = false)) \/
   (c = E_CONCAT_EMPTY /\ exists k, num_repeats (zlen x) rate d = Ok k /\ k < 0).
 Proof.
@@ -184,9 +185,7 @@ Proof.
   - destruct (k =? 0) eqn:E0; [discriminate|].
     destruct (k <? 0) eqn:E1.
     + intros H. inversion H. right. right. split; [reflexivity|]. exists k. split; [reflexivity|lia].
-    + intros H. apply crop_error in H. destruct H as [-> [H|H]].
-      * exfalso. revert H. vm_compute. destruct rate; discriminate.
-      * right. left. auto.
+    + intros H. apply crop_error in H. destruct H as [-> [H|H]]; right; left; auto.
   - intros H. inversion H. subst c'. clear H. revert Hk. unfold num_repeats.
     destruct (rate =? 0) eqn:Er.
     + intros H. inversion H. left. split; [reflexivity|left; lia].
